@@ -26,7 +26,8 @@ RULE = ("(1) histories of put/get/purge/clear/clock-advance/reopen/foreign-versi
         ' ; expiry on the real clock; suds text objects through the object cache; WSDLs at file: URLs'
         ' ; a sub-folder named like an entry; a WSDL not served past the duration of the cache it was given'
         ' ; durations the cache has; endpoints of warm clients; names outside ASCII; warm clients over interfaces of the generated family'
-        ' ; the cold load stores what the policy says; xstq of warm clients')
+        ' ; the cold load stores what the policy says; xstq of warm clients'
+        ' ; locations differing outside ASCII')
 ASSUMPTIONS = ["pickle and expat reject every proper prefix and zero-filled prefix of an entry (validated by the sweep)",
                "hashlib.md5 does not collide on the URLs used"]
 PARTIAL = [{"theorem": "interleaved_get_sound", "missing": "under concurrent writers only 'a value some process stored "
